@@ -126,7 +126,7 @@ PLAN = {
                   "notify, an item that re-submits, an item that itself drops the last reference, a block object waited on while it completes",
                   "k<=3 for the single-thread scenarios, k<=2 for the two-thread ones", "k<=4 / k<=3"),
     "C19": _qplan("one block object: submit (async / sync / group_async / direct call / dispatch_block_perform) racing cancel, wait (forever, 1 ms), notify and testcancel from 2-3 threads, "
-                  "flags 0 / BARRIER on a concurrent queue / QoS flags",
+                  "flags 0 / BARRIER on a concurrent queue / QoS flags; one block object executed by two threads at once",
                   "k<=2 for 2-thread scenarios on a serial queue, k<=1 with notify / 3 threads / concurrent queue", "k<=3 / k<=2 / k<=1"),
     "C10": _qplan("dispatch_apply with n in {0,1,2,3,5} on APPLY_AUTO / global / serial / concurrent / concurrent->serial / concurrent with a racing barrier / width-2 queues / queues that are busy (a running item or barrier) when apply is called, "
                   "nested apply(2) inside apply(2), each with 1, 2 and 3 CPUs (so n is below, at and above the helper count)",
@@ -320,8 +320,8 @@ def _tasks_for(pid, tier):
         rest = [1, 2, 3, 5, 8, 12, 13, 14]     # 13/14: block object + dispatch_block_wait (who consumes the queue's references)
         return ds("life", 3 if q else 4, tiny, jobs=4) + ds("life", 2 if q else 3, rest, jobs=8)
     if pid == "C19":
-        small = [0, 1, 4, 5, 7, 8, 10, 11, 12, 14, 18, 20, 21, 22, 23, 24]
-        mid = [2, 3, 6, 9, 13, 15, 16, 19]
+        small = [0, 1, 4, 5, 7, 8, 10, 11, 12, 14, 18, 20, 21, 22, 23, 24, 25, 26]     # 25-27: one block object executed twice
+        mid = [2, 3, 6, 9, 13, 15, 16, 19, 27]
         return (ds("block", 2 if q else 3, small, jobs=4) + ds("block", 1 if q else 2, mid, jobs=8) +
                 ds("block", 0 if q else 1, [17], jobs=8))
     if pid == "C15":
